@@ -246,6 +246,7 @@ var specC33 = vstat.Spec[c33Case]{
 	Gen:         genC33,
 	Check:       checkC33,
 	Inflight:    true,
+	Confirm:     true,
 }
 
 func TestC33(t *testing.T)       { vstat.Check(t, specC33) }
